@@ -293,6 +293,30 @@ def run(ctx, res):
     else:
         res.bad("RETURN-CLEARS", "eval::eval # frame-pop", "eval no longer pops finished frames", e.loc())
     res.extra["functions_analysed"] = 4
+    # ---- CONSUME-NEXT-BLOCK: the bindings queued for "the next block" (match payloads, the for variable) are
+    # moved out when a block is entered; if they are only read, every later block of the frame re-binds them.
+    ebk = P.require_fn("eval::eval_block")
+    takes = []
+    for bi, t in ebk.calls():
+        n = M.callee_name(t) or ""
+        if n.endswith(("mem::take", "mem::replace", "::drain", "mem::swap")) and t["args"]:
+            r = ebk.root_of(t["args"][0], through_named=True)
+            if r[0] == "place" and ebk.field_path(r[1])[-1:] == ["bindings_next_block"]:
+                takes.append(bi)
+    reads = []
+    for bi, t in ebk.calls():
+        if not t["args"] or bi in takes:
+            continue
+        r = ebk.root_of(t["args"][0], through_named=True)
+        if r[0] == "place" and ebk.field_path(r[1])[-1:] == ["bindings_next_block"]:
+            reads.append((bi, (M.callee_name(t) or "").split("::")[-1]))
+    if takes and not reads:
+        res.ok("CONSUME-NEXT-BLOCK", "eval_block moves bindings_next_block out (mem::take) before binding its entries")
+    else:
+        res.bad("CONSUME-NEXT-BLOCK", "eval::eval_block # next-block-not-consumed",
+                "eval_block does not move the queued bindings out of bindings_next_block (take sites=%d, other uses=%s): the "
+                "entries stay queued and are bound again in every later block of the frame (a match payload or loop variable "
+                "becomes visible in unrelated blocks)" % (len(takes), [x[1] for x in reads][:3]), ebk.loc())
     res.explanation = (
         "Push/pop discipline of binding blocks, decided by abstract simulation of MIR: for each of the %d Expression_ variants x 5 "
         "states, eval_expr is simulated with the discriminants fixed to obtain how many blocks the entry's own arm pops (what it "
